@@ -71,8 +71,6 @@ func stressCmd(out *cq.Out, seed uint64, tier string) {
 			binary.BigEndian.PutUint64(b[:], uint64(k))
 			return append([]byte(fmt.Sprintf("st%d", r)), b[:]...)
 		}
-		ev0 := append([]hashing.Digest{}, events...)
-		sn0 := append([]*balloon.Snapshot{}, snaps...)
 		var bad, panics, answered int64
 		var firstBad atomic.Value
 		var wg sync.WaitGroup
@@ -94,14 +92,30 @@ func stressCmd(out *cq.Out, seed uint64, tier string) {
 					}
 					k := lr.Intn(old)
 					q := uint64(k + lr.Intn(old-k))
+					// every other query is about versions issued during the run (the readers keep reaching nodes
+					// nobody has read before, as the clients of a live log do)
+					issued := old
+					if i%2 == 1 {
+						snapsMu.Lock()
+						issued = len(snaps)
+						snapsMu.Unlock()
+						lo := issued - 8
+						if lo < 0 {
+							lo = 0
+						}
+						k = lo + lr.Intn(issued-lo)
+						q = uint64(k + lr.Intn(issued-k))
+					}
+					evk := digestOf(fmt.Sprintf("st%d", r), uint64(k))
 					var why string
 					p, msg := cq.Catch(func() {
 						if lr.Intn(3) == 0 {
 							s0 := uint64(lr.Intn(int(q) + 1))
 							ip, err := n.QueryConsistency(s0, q)
+							ss, se := snapshotAt(&snapsMu, &snaps, s0), snapshotAt(&snapsMu, &snaps, q)
 							if err != nil {
 								why = "consistency query failed: " + err.Error()
-							} else if !ip.Verify(sn0[s0], sn0[q]) {
+							} else if ss == nil || se == nil || !ip.Verify(ss, se) {
 								why = fmt.Sprintf("the incremental proof (%d,%d) does not verify against the snapshots issued for those versions", s0, q)
 							}
 							return
@@ -110,11 +124,11 @@ func stressCmd(out *cq.Out, seed uint64, tier string) {
 						var err error
 						switch lr.Intn(4) {
 						case 0:
-							mp, err = n.QueryDigestMembershipConsistency(ev0[k], q)
+							mp, err = n.QueryDigestMembershipConsistency(evk, q)
 						case 1:
 							mp, err = n.QueryMembershipConsistency(raw(k), q)
 						case 2:
-							mp, err = n.QueryDigestMembership(ev0[k])
+							mp, err = n.QueryDigestMembership(evk)
 						default:
 							mp, err = n.QueryMembership(raw(k))
 						}
@@ -128,7 +142,7 @@ func stressCmd(out *cq.Out, seed uint64, tier string) {
 						hq := snapshotAt(&snapsMu, &snaps, mp.QueryVersion)
 						if sn == nil || hq == nil {
 							why = fmt.Sprintf("the answer names versions (query %d, current %d) that were never issued", mp.QueryVersion, cur)
-						} else if !mp.Exists || !mp.DigestVerify(ev0[k], &balloon.Snapshot{HistoryDigest: hq.HistoryDigest, HyperDigest: sn.HyperDigest}) {
+						} else if !mp.Exists || !mp.DigestVerify(evk, &balloon.Snapshot{HistoryDigest: hq.HistoryDigest, HyperDigest: sn.HyperDigest}) {
 							why = fmt.Sprintf("the membership answer for event %d at version %d (current %d) does not verify against the snapshots issued for those versions", k, mp.QueryVersion, cur)
 						}
 					})
